@@ -116,8 +116,15 @@ def build_mn(inst, conc, rng):
         m.add_node(conc.vn[v])
     for u, v in shuffled(inst["edges"], rng):
         m.add_edge(conc.vn[u], conc.vn[v])
+    made = {}
     for jf in inst["factors"]:
-        m.add_factors(make_factor(jf, conc, rng))
+        # value-identical factors are sometimes handed over as ONE Python object listed twice, sometimes as equal copies
+        key = json.dumps(jf, sort_keys=True)
+        if key in made and rng.random() < 0.5:
+            m.add_factors(made[key])
+        else:
+            made[key] = make_factor(jf, conc, rng)
+            m.add_factors(made[key])
     return m
 
 
